@@ -25,13 +25,21 @@ val add : nat -> nat -> nat
 module Nat :
  sig
   val eqb : nat -> nat -> bool
+
+  val leb : nat -> nat -> bool
  end
 
 val nth : nat -> 'a1 list -> 'a1 -> 'a1
 
+val nth_error : 'a1 list -> nat -> 'a1 option
+
 val rev : 'a1 list -> 'a1 list
 
 val rev_append : 'a1 list -> 'a1 list -> 'a1 list
+
+val map : ('a1 -> 'a2) -> 'a1 list -> 'a2 list
+
+val flat_map : ('a1 -> 'a2 list) -> 'a1 list -> 'a2 list
 
 val firstn : nat -> 'a1 list -> 'a1 list
 
@@ -227,6 +235,8 @@ val z_to_u : n -> z -> n
 
 val u_to_z : n -> n -> n -> z
 
+val beq_bytes : bytes -> bytes -> bool
+
 type str = n list
 
 val sp : n
@@ -314,8 +324,165 @@ val run_enc : str list -> str
 
 val run_dec : str list -> str
 
+type entry = { e_index : n; e_term : n; e_type : n; e_data : bytes;
+               e_ext : bytes; e_sec : z; e_nsec : z }
+
+type lstore = { ls_first : n; ls_ents : entry list }
+
+val empty_store : lstore
+
+val ls_len : lstore -> n
+
+val first_index : lstore -> n
+
+val last_index : lstore -> n
+
+val get_log : lstore -> n -> entry option
+
+val consecutive_from : n -> entry list -> bool
+
+val store_logs : lstore -> entry list -> lstore option
+
+type env = { cancel_at : nat option; get_fail : n option;
+             store_fail : nat option; has_progress : bool }
+
+val cancelled : env -> nat -> bool
+
+val src_get : env -> lstore -> n -> entry option
+
+val dst_store : env -> nat -> lstore -> entry list -> lstore option
+
+type cres =
+| COk
+| CCanceled
+| CErrFirst
+| CErrGet
+| CErrStore
+| COutOfFuel
+
+type cout = { o_res : cres; o_dst : lstore; o_batches : entry list list;
+              o_gets : n }
+
+type cresult = { r_res : cres; r_dst : lstore; r_batches : entry list list;
+                 r_gets : n; r_closed : bool }
+
+val run_deferred : env -> cout -> cresult
+
+val ret : cres -> lstore -> entry list list -> n -> cout
+
+val flush :
+  env -> lstore -> entry list list -> entry list -> (lstore * entry list
+  list) option
+
+val copy_loop :
+  nat -> env -> lstore -> z -> n -> n -> nat -> entry list -> z -> lstore ->
+  entry list list -> n -> cout
+
+val copy_logs_body : env -> z -> lstore -> lstore -> cout
+
+val copy_logs : env -> z -> lstore -> lstore -> cresult
+
+val indexed_fromb : n -> entry list -> bool
+
+val wf_storeb : lstore -> bool
+
+type sstore = { s_kv : (bytes * bytes) list; s_int : (bytes * n) list }
+
+val empty_sstore : sstore
+
+val lookup : bytes -> (bytes * 'a1) list -> 'a1 option
+
+val s_get : sstore -> bytes -> bytes option
+
+val s_get_int : sstore -> bytes -> n option
+
+val s_set : sstore -> bytes -> bytes -> sstore
+
+val s_set_int : sstore -> bytes -> n -> sstore
+
+type miss_policy = { miss_get_err : bool; miss_int_err : bool }
+
+type sres =
+| SOk
+| SCanceled
+| SErrGet
+
+val k_current_term : bytes
+
+val k_last_vote_term : bytes
+
+val k_last_vote_cand : bytes
+
+val known_int_keys : bytes list
+
+val known_keys : bytes list
+
+type sout = { so_res : sres; so_dst : sstore; so_chk : nat }
+
+val copy_int_keys :
+  miss_policy -> nat option -> sstore -> bytes list -> nat -> sstore -> sout
+
+val copy_keys :
+  miss_policy -> nat option -> sstore -> bytes list -> nat -> sstore -> sout
+
+type sresult = { sr_res : sres; sr_dst : sstore; sr_closed : bool }
+
+val copy_stable :
+  miss_policy -> nat option -> bool -> sstore -> sstore -> bytes list ->
+  bytes list -> sresult
+
+val s_canceled : str
+
+val s_errfirst : str
+
+val s_errget : str
+
+val s_errstore : str
+
+val s_fuel : str
+
+val s_dash : str
+
+val opt_N : str -> n option option
+
+val opt_nat : str -> nat option option
+
+val parse_bool : str -> bool option
+
+val parse_entries : nat -> str list -> entry list option
+
+val show_entry : entry -> str list
+
+val show_cres : cres -> str
+
+val show_bool : bool -> str
+
+val show_cresult : cresult -> str
+
+val run_mig : str list -> str
+
+val policy_of : str -> miss_policy option
+
+val take_keys : nat -> str list -> (bytes list * str list) option
+
+val take_kvs : nat -> str list -> ((bytes * bytes) list * str list) option
+
+val take_ints : nat -> str list -> ((bytes * n) list * str list) option
+
+val count : str list -> (nat * str list) option
+
+val show_sres : sres -> str
+
+val show_sresult : sresult -> bytes list -> bytes list -> str
+
+val run_stb : str list -> str
+
 val k_enc : str
 
 val k_dec : str
+
+val k_mig : str
+
+val k_stb : str
 
 val run_line : str -> str
